@@ -13,9 +13,15 @@
    - [boundary_safe doc]: in the unstyled output no complete sequence begins before a style boundary
      of the document and ends after it;
    - [tidy s]: s does not end inside an incomplete escape sequence and its visible text does not end in
-     a truncated UTF-8 sequence (any valid UTF-8 text without a dangling "ESC [ 1 2" tail is tidy). *)
+     a truncated UTF-8 sequence (any valid UTF-8 text without a dangling "ESC [ 1 2" tail is tidy);
+   - [print_doc rs], [with_totals_doc pre lines]: the outputs of print / print --with-totals as documents
+     (Model/TextSer.v, Proofs/TableDoc.v); [record_ok]: value texts without ESC, tags that start with a
+     guard byte and are closed, summary text arbitrary;
+   - [guard_text g]: non-empty, ESC-free, first byte cannot continue a sequence (not [ 0-9 ; m);
+     [semi X]: the token list X is boundary-safe after any closed text when a guard byte follows;
+   - [dop]: table operations whose cells are documents; [dop_op th] renders them for theme th. *)
 From Klog Require Import Base.Prelude Base.Utf8 Model.Styler Model.Table Model.TextSer
-  Proofs.Styler Proofs.Table Proofs.TextSer.
+  Proofs.Styler Proofs.Table Proofs.TextSer Proofs.TableDoc.
 Open Scope nat_scope.
 
 (* ---- 1. what a styler emits ---- *)
@@ -105,14 +111,57 @@ Theorem C18_print_boundary_safe : forall rs, Forall record_ok rs -> boundary_saf
 Proof. exact print_boundary_safe. Qed.
 Print Assumptions C18_print_boundary_safe.
 
-(* hence `klog print` is content-neutral under every well-formed theme.
-   partial: the full statement ranges over all six evaluation commands; the boundary-safety argument is
-   carried out in Coq for `print` only. The outputs of print --with-totals, total, report, tags and today
-   (styled parts: ESC-free values, or for tags a tag value followed by a blank or a line feed) are
-   covered by the end-to-end suite `cli`, not by a theorem *)
-Theorem C18_commands_neutral_partial : forall th rs, theme_ok th -> Forall record_ok rs ->
-  strip (render_doc th (print_doc rs)) = strip (render_doc no_colour (print_doc rs)).
-Proof. exact print_neutral. Qed.
+(* print --with-totals: every non-blank line of the print output preceded by an ESC-free prefix (padding
+   and a styled duration) and a bar — boundary-safe for every list of records as well *)
+Theorem C18_print_totals_boundary_safe : forall pre rs,
+  Forall (Forall esc_free_piece) pre -> Forall record_ok rs ->
+  boundary_safe (with_totals_doc pre (records_lines rs)).
+Proof. exact print_totals_safe. Qed.
+Print Assumptions C18_print_totals_boundary_safe.
+
+(* report, tags, today: a table whose cells are documents prints, under every theme, the rendering of
+   ONE document (same column widths, same padding); with a guard separator (klog: one blank), ESC-free
+   fill patterns (klog: =) and cells that are safe before a guard, the stripped outputs coincide —
+   whatever bytes the styled texts contain *)
+Theorem C18_tables_neutral : forall th cols sep ops t t0 out out0,
+  theme_ok th -> guard_text sep -> Forall dop_ok ops ->
+  build cols sep (map (dop_op th) ops) = Ok t -> collect t = Ok out ->
+  build cols sep (map (dop_op no_colour) ops) = Ok t0 -> collect t0 = Ok out0 ->
+  strip out = strip out0.
+Proof. exact tables_neutral. Qed.
+Print Assumptions C18_tables_neutral.
+
+(* the cells klog puts into its tables are safe before a guard: ESC-free documents (dates, durations,
+   counts, headers, "#"+tag name), a styled text of arbitrary content, and an ESC-free text followed by
+   a styled text of arbitrary content (" " + Format(tag value) in `klog tags --values`) *)
+Theorem C18_table_cell_shapes :
+  (forall d, Forall esc_free_piece d -> semi (flatten_doc d)) /\
+  (forall p v, semi (flatten_doc [Styled p [Plain v]])) /\
+  (forall t0 p v, esc_free t0 -> semi (flatten_doc [Plain t0; Styled p [Plain v]])).
+Proof. exact (conj semi_esc_free (conj semi_styled_any semi_styled_tail)). Qed.
+Print Assumptions C18_table_cell_shapes.
+
+(* the commands: content neutrality under every well-formed theme of the print output, of the
+   print --with-totals output and of every table of the above kind; `klog total` prints an ESC-free
+   document (C18_strip_render_esc_free).
+   partial: that the outputs of total, report, tags and today ARE documents of these shapes is read off
+   the Go code and exercised by the end-to-end suite `cli`; a model-level correspondence exists for
+   `print` (suite print) and for tables in general (suite table) only *)
+Theorem C18_commands_neutral_partial : forall th, theme_ok th ->
+  (forall rs, Forall record_ok rs ->
+     strip (render_doc th (print_doc rs)) = strip (render_doc no_colour (print_doc rs))) /\
+  (forall pre rs, Forall (Forall esc_free_piece) pre -> Forall record_ok rs ->
+     strip (render_doc th (with_totals_doc pre (records_lines rs)))
+     = strip (render_doc no_colour (with_totals_doc pre (records_lines rs)))) /\
+  (forall cols sep ops t t0 out out0, guard_text sep -> Forall dop_ok ops ->
+     build cols sep (map (dop_op th) ops) = Ok t -> collect t = Ok out ->
+     build cols sep (map (dop_op no_colour) ops) = Ok t0 -> collect t0 = Ok out0 ->
+     strip out = strip out0).
+Proof.
+  exact (fun th H => conj (fun rs Hr => print_neutral th rs H Hr)
+           (conj (fun pre rs Hp Hr => strip_render th _ H (print_totals_safe pre rs Hp Hr))
+                 (fun cols sep ops t t0 out out0 Hs Ho => tables_neutral th cols sep ops t t0 out out0 H Hs Ho))).
+Qed.
 Print Assumptions C18_commands_neutral_partial.
 
 (* "strip removes every SGR sequence" is false of the faithful model: the pattern needs at least one
@@ -208,6 +257,21 @@ Proof.
     constructor; [constructor; [discriminate|constructor]|].
     constructor; [|constructor]. constructor; [intros _; apply tag_ok_hash; reflexivity|].
     constructor; [discriminate|constructor].
+Qed.
+
+(* the `klog tags --values` table of a file with the tag #e="ESC[3": name row, value row *)
+Example C18_nonvacuous_tags_table :
+  guard_text b!" " /\
+  Forall dop_ok [DCell false [Plain b!"#e"]; DCell false [Styled pr_green [Plain b!"3h"]]; DSkip 1;
+                 DCell false [Plain b!" "; Styled pr_summary [Plain (c_esc :: b!"[3")]]; DSkip 1;
+                 DCell false [Styled pr_green [Plain b!"1h"]]].
+Proof.
+  split; [split; [discriminate|split; [reflexivity|apply esc_freeb_ok; reflexivity]]|].
+  assert (E : forall p t, esc_freeb t = true -> semi (flatten_doc [Styled p [Plain t]])) by (intros; apply semi_styled_any).
+  constructor; [apply semi_esc_free; constructor; [constructor; apply esc_freeb_ok; reflexivity|constructor]|].
+  constructor; [now apply E|]. constructor; [exact I|].
+  constructor; [apply semi_styled_tail, esc_freeb_ok; reflexivity|]. constructor; [exact I|].
+  constructor; [now apply E|constructor].
 Qed.
 
 (* Unicode cell content (2-, 3- and 4-byte characters, with an embedded complete sequence) is tidy *)
